@@ -62,7 +62,7 @@ func (c07) Describe() sim.Description {
 			"for pure spins on the compiler the instant of cancellation relative to native code is not controlled; the oracle is moment-independent",
 			"unbounded plain recursion is not in the workload (it ends by stack exhaustion, C06)",
 		},
-		FaultKinds: []string{"cancel", "deadline", "close_from_other_goroutine", "runtime_close", "already_done_at_call"},
+		FaultKinds: []string{"cancel", "deadline", "close_from_other_goroutine", "runtime_close", "already_done_at_call", "cancel_with_custom_cause", "timeout_with_custom_cause", "cancel_while_runtime_close_is_blocked_in_another_modules_notification", "host function swallowing the re-entrant call's error", "guest parked in memory.atomic.wait", "WASI call inside the cycle"},
 	}
 }
 
